@@ -8,11 +8,16 @@ import (
 	"math"
 	"os"
 
+	"github.com/benoitkugler/webrender/backend"
+	pa "github.com/benoitkugler/webrender/css/parser"
 	pr "github.com/benoitkugler/webrender/css/properties"
+	"github.com/benoitkugler/webrender/css/validation"
 	bo "github.com/benoitkugler/webrender/html/boxes"
 	"github.com/benoitkugler/webrender/html/tree"
+	"github.com/benoitkugler/webrender/images"
 	"github.com/benoitkugler/webrender/logger"
 	mt "github.com/benoitkugler/webrender/matrix"
+	"github.com/benoitkugler/webrender/utils/testutils/tracer"
 )
 
 // Contracts for the deductive verifier in /verif (build tag verif: not compiled
@@ -531,3 +536,89 @@ func vStackingOrderLong() (n int, fails []string) {
 //@   call Rectangle#1 assert[the-box] arg1 == pr.Fl(radii.X) && arg2 == pr.Fl(radii.Y) && arg3 == pr.Fl(radii.Width) && arg4 == pr.Fl(radii.Height)
 //@   call MoveTo#1 assert[starts-after-the-top-left-corner] arg1 == pr.Fl(radii.X) + pr.Fl(radii.TopLeft[0]) && arg2 == pr.Fl(radii.Y)
 //@   call CubicTo#4 assert[closes-at-the-start] arg5 == pr.Fl(radii.X) + pr.Fl(radii.TopLeft[0]) && arg6 == pr.Fl(radii.Y)
+
+// bounded stand-in (C01 / C14): CSS gradients. Laying a gradient out mixes divisions by the gradient length, by
+// the distance between stops and by the box size: zero or negative lengths, coinciding stops and empty boxes are
+// ordinary CSS. vGradientLayouts parses and draws (on a no-op canvas) every linear and radial gradient over three
+// directions / six shapes, two or three colour stops with positions among none, -10px, 0px, 5px, 10px, 10.000001px, 50% and 120%,
+// repeating or not, in three box sizes: none may panic, and no position, colour or coordinate of the layout may be NaN or infinite.
+func vGradientLayouts() (n int, fails []string) {
+	logger.WarningLogger.SetOutput(io.Discard)
+	defer logger.WarningLogger.SetOutput(os.Stdout)
+	positions := []string{"", " -10px", " 0px", " 5px", " 10px", " 10.000001px", " 50%", " 120%"}
+	var stopLists []string
+	for _, a := range positions {
+		for _, b := range positions {
+			stopLists = append(stopLists, "red"+a+", blue"+b)
+			for _, c := range positions {
+				stopLists = append(stopLists, "red"+a+", blue"+b+", lime"+c)
+			}
+		}
+	}
+	heads := []string{"linear-gradient(", "linear-gradient(to right, ", "linear-gradient(45deg, ",
+		"radial-gradient(", "radial-gradient(circle, ", "radial-gradient(circle 0px, ", "radial-gradient(ellipse closest-side, ",
+		"radial-gradient(0px 0px, ", "radial-gradient(circle at 10px 10px, "}
+	page := tracer.NewDrawerNoOp().AddPage(0, 0, 100, 100)
+	sizes := [][2]pr.Fl{{100, 50}, {0, 0}, {0.001, 100}}
+	for _, head := range heads {
+		for _, stops := range stopLists {
+			for _, rep := range []string{"", "repeating-"} {
+				css := "background-image: " + rep + head + stops + ")"
+				decls := validation.PreprocessDeclarations("", pa.ParseDeclarationListString(css, false, false))
+				if len(decls) != 1 {
+					continue // not a valid value: nothing is drawn
+				}
+				imgs, ok := decls[0].Value.(pr.Images)
+				if !ok || len(imgs) != 1 {
+					continue
+				}
+				for _, size := range sizes {
+					n++
+					func() {
+						defer func() {
+							if r := recover(); r != nil && len(fails) < 6 {
+								fails = append(fails, fmt.Sprintf("%s in %v: panic: %v", css, size, r))
+							}
+						}()
+						var layout backend.GradientLayout
+						switch g := imgs[0].(type) {
+						case pr.LinearGradient:
+							im := images.NewLinearGradient(g)
+							layout = im.Layout(pr.Float(size[0]), pr.Float(size[1]))
+							im.Draw(page, nil, size[0], size[1], "auto")
+						case pr.RadialGradient:
+							im := images.NewRadialGradient(g)
+							layout = im.Layout(pr.Float(size[0]), pr.Float(size[1]))
+							im.Draw(page, nil, size[0], size[1], "auto")
+						default:
+							return
+						}
+						for _, p := range layout.Positions {
+							if (math.IsNaN(float64(p)) || math.IsInf(float64(p), 0)) && len(fails) < 6 {
+								fails = append(fails, fmt.Sprintf("%s in %v: stop positions %v", css, size, layout.Positions))
+								break
+							}
+						}
+						for _, c := range layout.Colors {
+							for _, v := range []pr.Fl{c.R, c.G, c.B, c.A} {
+								if (math.IsNaN(float64(v)) || math.IsInf(float64(v), 0)) && len(fails) < 6 {
+									fails = append(fails, fmt.Sprintf("%s in %v: colours %v", css, size, layout.Colors))
+								}
+							}
+						}
+						for _, v := range layout.Coords {
+							if (math.IsNaN(float64(v)) || math.IsInf(float64(v), 0)) && len(fails) < 6 {
+								fails = append(fails, fmt.Sprintf("%s in %v: coordinates %v", css, size, layout.Coords))
+								break
+							}
+						}
+					}()
+				}
+			}
+		}
+	}
+	return n, fails
+}
+
+//@ bounded vGradientLayouts every linear / radial gradient over 9 directions and shapes x 576 lists of two or three colour stops (positions none, -10px, 0px, 5px, 10px, 10.000001px, 50%, 120%) x repeating or not x 3 box sizes, laid out and drawn on a no-op canvas: no panic, finite stop positions, colours and coordinates
+//@   props C01 C14
